@@ -213,7 +213,11 @@ def run(repo: Repo, rep: Report, tier: str) -> None:
             while isinstance(par, ast.UnaryOp):
                 par = parent(par)
             if isinstance(par, ast.BoolOp):
-                evidence = {x.id for x in ast.walk(t.comparators[0]) if isinstance(x, ast.Name)} | {x.id for x in ast.walk(src) if isinstance(x, ast.Name)}
+                # (a name that only selects *which* line is looked at - the index of `lines[i]` - is a position, not the text the decision is read from)
+                index_only = {x.id for sb in ast.walk(src) if isinstance(sb, ast.Subscript) for x in ast.walk(sb.slice) if isinstance(x, ast.Name)}
+                index_only -= {x.id for x in ast.walk(src) if isinstance(x, ast.Name) and not any(
+                    isinstance(sb, ast.Subscript) and any(y is x for y in ast.walk(sb.slice)) for sb in ast.walk(src))}
+                evidence = {x.id for x in ast.walk(t.comparators[0]) if isinstance(x, ast.Name)} | ({x.id for x in ast.walk(src) if isinstance(x, ast.Name)} - index_only)
                 for other in par.values:
                     if other is t or any(y is t for y in ast.walk(other)):
                         continue
